@@ -277,15 +277,26 @@ fn build_command(
             import_paths,
             env,
         );
-        if let Ok(false) = ok {
-            process::exit(1)
+        match ok {
+            Ok(true) => {}
+            Ok(false) => process::exit(1),
+            Err(e) => {
+                eprintln!("{}", e);
+                process::exit(1)
+            }
         }
         process::exit(0);
     }
     for file in files.unwrap() {
         let pb = PathBuf::from(file);
-        if let Ok(false) = visit_ucg_files(&pb, recurse, false, strict, import_paths, env) {
-            ok = false;
+        // A directory that could not be read is a failure too: nothing in it was built.
+        match visit_ucg_files(&pb, recurse, false, strict, import_paths, env) {
+            Ok(true) => {}
+            Ok(false) => ok = false,
+            Err(e) => {
+                eprintln!("{}", e);
+                ok = false;
+            }
         }
     }
     if !ok {
@@ -368,10 +379,15 @@ fn test_command(
         let mut ok = true;
         for file in files {
             let pb = PathBuf::from(file);
-            if let Ok(false) =
-                visit_ucg_files(pb.as_path(), recurse, true, strict, import_paths, env)
-            {
-                ok = false;
+            // A path that could not be visited (an unreadable directory) is a
+            // failure too: nothing in it was tested.
+            match visit_ucg_files(pb.as_path(), recurse, true, strict, import_paths, env) {
+                Ok(true) => {}
+                Ok(false) => ok = false,
+                Err(e) => {
+                    eprintln!("{}", e);
+                    ok = false;
+                }
             }
         }
         if !ok {
@@ -379,9 +395,13 @@ fn test_command(
         }
     } else {
         let curr_dir = std::env::current_dir().unwrap();
-        let ok = visit_ucg_files(curr_dir.as_path(), recurse, true, strict, import_paths, env);
-        if let Ok(false) = ok {
-            process::exit(1)
+        match visit_ucg_files(curr_dir.as_path(), recurse, true, strict, import_paths, env) {
+            Ok(true) => {}
+            Ok(false) => process::exit(1),
+            Err(e) => {
+                eprintln!("{}", e);
+                process::exit(1)
+            }
         }
     }
     process::exit(0);
